@@ -346,7 +346,7 @@ class Run:
         if r["rc"] == 0 and "No error has been found" in out:
             return True, None, r
         hw = None
-        m = re.findall(r'<<"HW", (\d+)', out)
+        m = re.findall(r'<<\s*"HW",\s*(\d+)', out)
         if m:
             hw = int(m[-1])
         else:
